@@ -1008,7 +1008,7 @@ def check_C10(chk):
         blocks.append(["# " + gid, "cleartable", "new " + f, "search 3 -1 0", "search 0 -1 0"])
         expect[gid] = ("dead", f + " (stalemate)", [], 3)
     # (e) mates in two in which a position of ply 2 returns at ply 4: a table that holds mate scores counted from the root of the
-    # search hands the ply-2 score to the ply-4 node (known finding C10-K2 while the engine is not repaired; a regression test after)
+    # search hands the ply-2 score to the ply-4 node (defect F13, fix d5b26ce; kept as a regression test)
     bw = [["# w%d" % i, "specmate 2 | " + f] for i, f in enumerate(TABLE_MATE_WITNESSES)]
     rw = cached_run("mate-spec-witness", SPECDRIVER, bw, "mate-witness", timeout=900)
     nwit = 0
@@ -1021,7 +1021,7 @@ def check_C10(chk):
         for d in (5, 7):
             gid = "w%d_%d" % (i, d)
             blocks.append(["# " + gid, "cleartable", "new " + f, "search %d -1 0" % d])
-            expect[gid] = ("forced mate in two", f, kv["keep"].split(","), d, "mate_distance_through_table")
+            expect[gid] = ("forced mate in two", f, kv["keep"].split(","), d, None)
     # (d) the same positions at the end of a game record on which the root's repetition filter fires
     hist = history_mates(chk, key)
     hstats = {"filtered_move_is_key": 0, "filtered_move_is_other": 0, "mate_in_one_records": 0}
